@@ -400,6 +400,49 @@ def main():
 
     body_def("responseIdRefused", "(requestId responseId : Int) : Bool", response_id_builder, "true")
 
+    # V3MPM.encode: the engine time put into a request is the discovered time plus the whole seconds
+    # elapsed on the client's monotonic clock since the discovery data was stamped.  `now` and `stamp`
+    # are instants in tenths of a second (the time line of `Snmp.Disco`): `int(t1 - t0)` for
+    # t1 >= t0 is the floor of the difference in seconds.
+    def engine_time_builder():
+        from puresnmp_plugins.mpm import v3 as MV3
+
+        fn = func_ast(MV3.V3MPM.encode)
+        elapsed = None
+        for node in ast.walk(fn):
+            if isinstance(node, ast.Assign) and len(node.targets) == 1 and ast.unparse(node.targets[0]) == "elapsed":
+                if ast.unparse(node.value) != "int(time.monotonic() - self.disco_timestamp)":
+                    raise Untranslatable(f"elapsed = {ast.unparse(node.value)}")
+                elapsed = "((now - stamp) / (10 : Int))"
+        calls = [n for n in ast.walk(fn) if isinstance(n, ast.Call) and ast.unparse(n.func).endswith("set_engine_timing")]
+        if elapsed is None or len(calls) != 1 or len(calls[0].args) != 3:
+            raise Untranslatable("unexpected structure of the engine-time update")
+        if ast.unparse(calls[0].args[1]) != "self.disco.authoritative_engine_boots":
+            raise Untranslatable(f"boots sent: {ast.unparse(calls[0].args[1])}")
+        tr = Tr({"self.disco.authoritative_engine_time": "time", "elapsed": elapsed})
+        return tr.expr(calls[0].args[2])
+
+    body_def("engineTimeSent", "(time now stamp : Int) : Int", engine_time_builder, "0")
+
+    # … and the stamp is read AFTER the discovery exchange has returned (statement order inside
+    # `if not self.disco:`), and nothing else in `encode` assigns the stamp or the discovery data
+    def stamp_builder():
+        from puresnmp_plugins.mpm import v3 as MV3
+
+        fn = func_ast(MV3.V3MPM.encode)
+        blocks = [n for n in ast.walk(fn) if isinstance(n, ast.If) and ast.unparse(n.test) == "not self.disco"]
+        if len(blocks) != 1:
+            raise Untranslatable("no single `if not self.disco:` block")
+        body = [ast.unparse(st) for st in blocks[0].body]
+        i_await = [i for i, t in enumerate(body) if "await" in t and "send_discovery_message" in t and t.startswith("self.disco =")]
+        i_stamp = [i for i, t in enumerate(body) if t.replace(" ", "") == "self.disco_timestamp=time.monotonic()"]
+        assigns = [ast.unparse(t) for n in ast.walk(fn) if isinstance(n, (ast.Assign, ast.AugAssign)) for t in (n.targets if isinstance(n, ast.Assign) else [n.target])]
+        others = [a for a in assigns if a in ("self.disco", "self.disco_timestamp")]
+        ok = len(i_await) == 1 and len(i_stamp) == 1 and i_await[0] < i_stamp[0] and len(others) == 2
+        return "true" if ok else "false"
+
+    body_def("stampAfterDiscovery", ": Bool", stamp_builder, "false")
+
     # ---- reflected data --------------------------------------------------------------
     def fact(name, typ, builder, stub):
         try:
